@@ -145,22 +145,26 @@ structure Completed (s : WState) (es : List Bytes) : Prop where
   indexIndex : s.indexIndex = 0
 
 theorem flushValues_inv {s : WState} {c : Nat} {es : List Bytes} (h : Inv s c es []) :
-    ∃ s1, flushValues .repaired s = .ok s1 ∧ s1.values.contents = es.flatten ∧ s1.valueIndex = 0 ∧
-      s1.indices = s.indices ∧ s1.indexIndex = s.indexIndex ∧ s1.rawIndices = s.rawIndices := by
-  have vals := h.vals
-  simp only [List.append_nil] at vals
+    ∃ s1, flushValues .repaired s = .ok s1 ∧ Inv s1 c es [] ∧ s1.values.contents = es.flatten ∧ s1.valueIndex = 0 := by
+  obtain ⟨hc, rvLen, riLen, vi, ii, vals, acc, idx⟩ := h
+  have vals' := vals
+  simp only [List.append_nil] at vals'
   unfold flushValues
   by_cases h0 : s.valueIndex = 0
-  · refine ⟨s, by simp [h0], ?_, h0, rfl, rfl, rfl⟩
-    simpa [h0] using vals
+  · refine ⟨s, by simp [h0], ⟨hc, rvLen, riLen, vi, ii, vals, acc, idx⟩, ?_, h0⟩
+    simpa [h0] using vals'
   · have hb : (s.valueIndex != 0) = true := by simp [h0]
     simp only [hb, if_true, Arr.writePart_repaired]
-    exact ⟨_, rfl, by simpa using vals, rfl, rfl, rfl, rfl⟩
+    refine ⟨_, rfl, ⟨hc, rvLen, riLen, by simp; omega, ii, ?_, acc, idx⟩, by simpa using vals', rfl⟩
+    simpa using vals'
 
-theorem flushIndices_inv {s1 : WState} {es : List Bytes}
-    (idx : storedOffsets s1.indices ++ s1.rawIndices.take s1.indexIndex = offsets es) :
-    ∃ s', flushIndices .repaired s1 = .ok s' ∧ s'.indices.contents = offsets es ∧ s'.indexIndex = 0 ∧
+theorem flushIndices_inv {s1 : WState} {c : Nat} {es : List Bytes} (h : Inv s1 c es []) :
+    ∃ s', flushIndices .repaired s1 = .ok s' ∧ Inv s' c es [] ∧ s'.indices.contents = offsets es ∧ s'.indexIndex = 0 ∧
       s'.values = s1.values ∧ s'.valueIndex = s1.valueIndex := by
+  obtain ⟨hc, rvLen, riLen, vi, ii, vals, acc, idx⟩ := h
+  have hstored : ∀ ix : Arr Nat, ix.contents = offsets es → storedOffsets ix ++ List.take 0 s1.rawIndices = offsets es := by
+    intro ix hix
+    rw [storedOffsets_of_ne_nil (by rw [hix]; exact offsets_ne_nil es), hix]; simp
   unfold flushIndices
   by_cases hi0 : s1.indexIndex = 0
   · -- nothing staged: the repaired code writes the leading 0 when the index is still empty
@@ -170,25 +174,34 @@ theorem flushIndices_inv {s1 : WState} {es : List Bytes}
     by_cases hemp : s1.indices.contents = []
     · have hlen : (s1.indices.len == 0) = true := by simp [Arr.len, hemp]
       simp only [hlen, if_true, Arr.writePart_repaired]
-      refine ⟨_, rfl, ?_, hi0, rfl, rfl⟩
-      simp [hemp, ← hidx, storedOffsets]
+      have hnew : (s1.indices.appended [0]).contents = offsets es := by simp [hemp, ← hidx, storedOffsets]
+      refine ⟨_, rfl, ⟨hc, rvLen, riLen, vi, ii, vals, acc, ?_⟩, hnew, hi0, rfl, rfl⟩
+      simpa [hi0] using hstored _ hnew
     · have hlen : (s1.indices.len == 0) = false := by simpa [Arr.len] using hemp
       simp only [hlen, Bool.false_eq_true, if_false]
-      refine ⟨_, rfl, ?_, hi0, rfl, rfl⟩
+      refine ⟨_, rfl, ⟨hc, rvLen, riLen, vi, ii, vals, acc, idx⟩, ?_, hi0, rfl, rfl⟩
       rw [← hidx, storedOffsets_of_ne_nil hemp]
   · have hb : (s1.indexIndex != 0) = true := by simp [hi0]
     obtain ⟨ix0, hs, hix0⟩ := sentinel_repaired s1.indices
     simp only [hb, if_true, hs, Arr.writePart_repaired]
-    refine ⟨_, rfl, ?_, rfl, rfl, rfl⟩
-    simp only [Arr.contents_appended, hix0, idx]
+    have hnew : (ix0.appended (List.take s1.indexIndex s1.rawIndices)).contents = offsets es := by
+      simp only [Arr.contents_appended, hix0, idx]
+    refine ⟨_, rfl, ⟨hc, rvLen, riLen, vi, by simp; omega, vals, acc, ?_⟩, hnew, rfl, rfl, rfl⟩
+    exact hstored _ hnew
 
+/-- `complete()` drains both buffers, establishes the round-trip equations and keeps the invariant (so the same writer
+    object can go on with further `write_part` calls) -/
 theorem complete_inv {s : WState} {c : Nat} {es : List Bytes} (h : Inv s c es []) :
-    ∃ s', complete .repaired s = .ok s' ∧ Completed s' es := by
-  obtain ⟨s1, hs1, hv1, hvi1, hix1, hii1, hri1⟩ := flushValues_inv h
-  have idx : storedOffsets s1.indices ++ s1.rawIndices.take s1.indexIndex = offsets es := by
-    rw [hix1, hii1, hri1]; exact h.idx
-  obtain ⟨s2, hs2, hi2, hii2, hv2, hvi2⟩ := flushIndices_inv idx
-  refine ⟨s2, by simp [complete, hs1, hs2], ⟨by rw [hv2, hv1], hi2, by rw [hvi2, hvi1], hii2⟩⟩
+    ∃ s', complete .repaired s = .ok s' ∧ Completed s' es ∧ Inv s' c es [] := by
+  obtain ⟨s1, hs1, hI1, hv1, hvi1⟩ := flushValues_inv h
+  obtain ⟨s2, hs2, hI2, hi2, hii2, hv2, hvi2⟩ := flushIndices_inv hI1
+  exact ⟨s2, by simp [complete, hs1, hs2], ⟨by rw [hv2, hv1], hi2, by rw [hvi2, hvi1], hii2⟩, hI2⟩
+
+theorem writeRound_inv {s : WState} {c : Nat} {es : List Bytes} (h : Inv s c es []) (parts : List (List Bytes)) :
+    ∃ s', writeRound .repaired s parts = .ok s' ∧ Completed s' (es ++ parts.flatten) ∧ Inv s' c (es ++ parts.flatten) [] := by
+  obtain ⟨s1, h1, hI⟩ := writeParts_inv parts s es h
+  obtain ⟨s2, h2, hC, hI2⟩ := complete_inv hI
+  exact ⟨s2, by simp [writeRound, h1, h2], hC, hI2⟩
 
 /-- the initial state of a writer on a field that holds the entries `xs0` satisfies the invariant -/
 theorem init_inv (c : Nat) (hc : 1 ≤ c) (ix : Arr Nat) (vals : Arr Byte) (xs0 : List Bytes)
@@ -202,5 +215,37 @@ theorem init_inv (c : Nat) (hc : 1 ≤ c) (ix : Arr Nat) (vals : Arr Byte) (xs0 
   · cases hi with
     | inl h => simp [WState.init, storedOffsets, h, offsets_ne_nil]
     | inr h => simp [WState.init, storedOffsets, h.1, h.2]
+
+/-- what holds between rounds: the invariant, and the stored arrays are those of the entries written so far (a field
+    nothing was completed on yet may still have no offsets at all) -/
+structure Stored (s : WState) (c : Nat) (es : List Bytes) : Prop where
+  inv : Inv s c es []
+  values : s.values.contents = es.flatten
+  indices : s.indices.contents = offsets es ∨ (s.indices.contents = [] ∧ es = [])
+
+theorem writeRounds_inv (c : Nat) (hc : 1 ≤ c) (h5 rewrap : Bool) (rounds : List (List (List Bytes))) :
+    ∃ s, writeRounds .repaired c h5 rewrap rounds = .ok s ∧ Stored s c (rounds.map List.flatten).flatten ∧
+      (rounds ≠ [] → Completed s (rounds.map List.flatten).flatten) := by
+  have h0 : Inv (WState.init c (Arr.fresh h5) (Arr.fresh h5)) c [] [] :=
+    init_inv c hc _ _ [] (by simp) (Or.inr ⟨by simp, rfl⟩)
+  have := foldE_rule
+    (fun s parts => writeRound .repaired (if rewrap then WState.init c s.indices s.values else s) parts)
+    (fun (s : WState) (done : List (List (List Bytes))) =>
+      Stored s c (done.map List.flatten).flatten ∧ (done ≠ [] → Completed s (done.map List.flatten).flatten))
+    (by
+      intro s done parts hP
+      obtain ⟨⟨hI, hv, hi⟩, _⟩ := hP
+      have hI0 : Inv (if rewrap then WState.init c s.indices s.values else s) c (done.map List.flatten).flatten [] := by
+        cases rewrap with
+        | false => simpa using hI
+        | true => simpa using init_inv c hc s.indices s.values _ hv hi
+      obtain ⟨s', h1, hC, hI'⟩ := writeRound_inv hI0 parts
+      refine ⟨s', h1, ?_⟩
+      have he : ((done ++ [parts]).map List.flatten).flatten = (done.map List.flatten).flatten ++ parts.flatten := by simp
+      rw [he]
+      exact ⟨⟨hI', hC.values, Or.inl hC.indices⟩, fun _ => hC⟩)
+    rounds (WState.init c (Arr.fresh h5) (Arr.fresh h5)) []
+    ⟨⟨by simpa using h0, by simp [WState.init], Or.inr ⟨by simp [WState.init], by simp⟩⟩, by simp⟩
+  simpa [writeRounds] using this
 
 end Exetera.IndexedWriter
